@@ -4,6 +4,7 @@ import Clem.Proofs.GelKeys
 import Clem.Proofs.GelPromo
 import Clem.Proofs.GelCanon
 import Clem.Proofs.GelObsSpec
+import Clem.Proofs.GelObsTop
 import Mathlib.Algebra.Order.Field.Rat
 
 /-!
@@ -250,6 +251,17 @@ theorem C18_observe_spec (same : Edge α → Edge α → Bool) (hsame : ∀ a b,
       (edgesOf (observe c (run c pw none ops) items turn).1)
       (observe c (run c pw none ops) items turn).2 = true :=
   obsSpec_holds same hsame c _ items turn hen
+    ((canonB_iff _).mp (C18_keys_canonical_history c pw ops)).2
+
+/-- Hand-off clause (the `Bool` monitor `obsTopB`, evaluated by the driver on the real `run_turn`'s
+before/after stores with ALL hits T2 returned as `items`): whatever order the items are listed in, every
+record an observation creates or rewrites sits under the key of a pair of ids taken from the top-`k`
+items by `(-score, id)` among the listed items with score `≥ θ` — in every reachable state. -/
+theorem C18_observe_topk_by_score (same : Edge α → Edge α → Bool) (hsame : ∀ a b, same a b = true ↔ a = b)
+    (c : Cfg α) (pw : α → α → α) (ops : List (Op α)) (items : List (Str × α)) (turn : Option Int) :
+    obsTopB same c items (edgesOf (run c pw none ops))
+      (edgesOf (observe c (run c pw none ops) items turn).1) = true :=
+  obsTop_holds same hsame c _ items turn
     ((canonB_iff _).mp (C18_keys_canonical_history c pw ops)).2
 
 /-! ## Maintenance passes -/
